@@ -96,6 +96,20 @@ func c01(r *Report) propMeta {
 		},
 	})
 
+	// the owasm environment is called back from inside the script execution of the end-blocker (through cgo, so not
+	// through the call graph): an out-of-range validator index must come back as an error, never as an index panic
+	// (seed C01-14: the guard compared with ask_count inclusive instead of the length of the slice that is indexed)
+	ge := "x/oracle/types.ExecuteEnv.getExternalDataFull"
+	r.Gate("validator-index-below-the-indexed-length", ge, IndexEff("field:Request.RequestedValidators"), []Cond{
+		{Op: "LSS", A: []string{"param:valIdx"}, B: []string{"^len|^convert", "len", "field:Request.RequestedValidators"}, Want: true, Desc: "valIdx < len(RequestedValidators)"},
+		{Op: "LSS", A: []string{"param:valIdx"}, B: []string{"const:0"}, Want: false, Desc: "not valIdx < 0"},
+	}, GateOpts{FailIsError: true})
+
+	// one request's failure to create its signing (error OR panic below bandtss) must not stop the resolve loop: the
+	// recover barrier of safeCreateSigning is part of "every pending request gets exactly one result" (seed C01-13 moved
+	// recover() into a helper, where it recovers nothing)
+	r.Include("C02", "C02.R3")
+
 	r.Rule("C01.R9", "rejection census: a report is refused only for the stated reasons")
 	r.FailureCensus("report-rejections", oMS+"ReportData", map[string]reject{
 		"data-too-large":   {[]string{"global:types.ErrTooLargeRawReportData"}, []Cond{{Op: "LSS", A: []string{"field:Params.MaxReportDataSize"}, B: []string{"len", "field:RawReport.Data"}, Want: true}}},
